@@ -576,6 +576,14 @@ func main() {
 	defer r.Finish()
 	log.SetOutput(io.Discard)
 	if r.Replay != "" {
+		var sc scase
+		r.LoadReplay(&sc)
+		if sc.Leg != "" { // a case of a search leg (search.go): regenerated from its parameters
+			r.Case()
+			runSearchCase(sc).report(r, sc)
+			r.Sample(sc)
+			return
+		}
 		var c tcase
 		r.LoadReplay(&c)
 		one(r, c)
@@ -602,6 +610,13 @@ func main() {
 		sweep(r, 2, 6)
 		sweep(r, 3, 5)
 		r.Note("bounded sweep: every op sequence of length 4 (capacity 1), 6 (capacity 2) and 5 (capacity 3) over an 11-letter alphabet was run on the real code against the reference")
+	}
+	if r.Search {
+		if r.Failed() {
+			r.Note("search legs not run: the thorough generators already produced a failing input")
+		} else {
+			searchLegs(r)
+		}
 	}
 	r.Note("keys are decimal strings (Remove takes a string), values are ints; Purge's callback order is Go map order and is compared as a sorted multiset")
 }
